@@ -641,8 +641,26 @@ Definition prepare_ranges (total : N) (requested : list (N * N)) : res (list (N 
             end in
   if forallb (range_valid total) rs then Ok rs else Err.
 
+(* prepare_blame_request as a whole.  `count rev` = number of lines of the file at revision rev (None = the
+   working copy): the environment.  effective_blame_options pins the revision of --json to HEAD when none is
+   given; git blame is run on that effective revision, and the default range, the open `-L n` end and the
+   validation must be sized by the SAME content (GenBlame.content_read_after_effective_options). *)
+Definition effective_revision (json : bool) (newest : option str) : option str :=
+  match newest with
+  | Some r => Some r
+  | None => if json then Some json_default_revision else None
+  end.
+
+Definition sizing_revision (json : bool) (newest : option str) : option str :=
+  if content_read_after_effective_options then effective_revision json newest else newest.
+
+Definition prepare_request (count : option str -> N) (json : bool) (newest : option str)
+           (requested : list (N * N)) : res (list (N * N)) :=
+  prepare_ranges (count (sizing_revision json newest)) requested.
+
 (* shape facts read from the source by the translator; the proofs file checks this is true *)
 Definition source_shape_ok : bool :=
   parser_reads_filename && overlay_uses_hunk_path && attribution_first_file_match
   && attribution_entries_reversed && attribution_own_prompts_first && json_grouping_shape && line_range_open_end
+  && content_read_after_effective_options
   && (content_prefix =? c_tab) && (N.of_nat (length skipped_prefixes) =? 7).
